@@ -20,7 +20,29 @@ var nextID int
 
 type Source = rand.Source
 
-func NewSource(seed int64) Source { return rand.NewSource(seed) }
+// lazySource defers the (expensive) seeding of the real generator until a value is drawn; under
+// exploration no value is ever drawn from it.
+type lazySource struct {
+	seed int64
+	real rand.Source
+}
+
+func (l *lazySource) src() rand.Source {
+	if l.real == nil {
+		l.real = rand.NewSource(l.seed)
+	}
+	return l.real
+}
+func (l *lazySource) Int63() int64    { return l.src().Int63() }
+func (l *lazySource) Seed(seed int64) { l.seed = seed; l.real = nil }
+func (l *lazySource) Uint64() uint64 {
+	if s64, ok := l.src().(rand.Source64); ok {
+		return s64.Uint64()
+	}
+	return uint64(l.src().Int63())
+}
+
+func NewSource(seed int64) Source { return &lazySource{seed: seed} }
 
 type Rand struct {
 	real      *rand.Rand
